@@ -110,7 +110,7 @@ def mstepState (f : Flavour) (st : MState) (o : Obs) : Except String MState :=
   if !legal f st.phase o.method && o.code != 455 then .error "illegal-method-not-455"
   else if o.code == 455 then
     if o.consumers != st.consumers || o.published != st.published then .error "455-not-inert"
-    else if (o.method == .describe || o.method == .announce || o.method == .setup || (o.method == .play && f == .rtsp)) && legal f st.phase o.method then
+    else if (o.method == .describe || o.method == .announce || o.method == .setup || (o.method == .play && f == .rtsp) || (o.method == .pause && f == .wsp)) && legal f st.phase o.method then
       .error "legal-method-455"
     else .ok st
   else if o.code == 200 then
